@@ -511,6 +511,11 @@ class Prog:
                 else:
                     vals.append(self.fold(e, mod, fn, cls, _d + 1))
             return {ast.List: list, ast.Tuple: tuple, ast.Set: set}[type(expr)](vals)
+        if isinstance(expr, ast.UnaryOp) and isinstance(expr.op, ast.USub):
+            v = self.fold(expr.operand, mod, fn, cls, _d + 1)
+            if isinstance(v, (int, float)) and not isinstance(v, bool):
+                return -v
+            raise KeyError("unary minus")
         if isinstance(expr, ast.BinOp) and isinstance(expr.op, ast.Add):
             left, right = self.fold(expr.left, mod, fn, cls, _d + 1), self.fold(expr.right, mod, fn, cls, _d + 1)
             return left + right
